@@ -105,6 +105,10 @@ class Prop:
         """Extra interpreter flags for the worker of this shard (e.g. ['-O'])."""
         return []
 
+    def thread_pairs(self, ctx):
+        """[(name, fa, fb, judge_a, judge_b)] for the two-thread probe (vf.monitors.threadops); run right after setup."""
+        return []
+
     def selftest(self) -> None:
         """Oracle self-test. Raise to make the run inconclusive (exit 2)."""
 
